@@ -834,6 +834,31 @@ func (ctx *EvalCtx) callExpr(x *ast.CallExpr) CV {
 				return CV{f.Forall([]*Term{bv}, body), nil}
 			}
 			return CV{f.Exists([]*Term{bv}, body), nil}
+		case "forallt", "existst":
+			// quantification over the values of a Go type: forallt(k, T, body), e.g. forallt(h, [32]byte, ...)
+			name := x.Args[0].(*ast.Ident).Name
+			scope := ctx.calleeFn
+			if scope == nil {
+				scope = ctx.fn
+			}
+			tname := types.ExprString(x.Args[1])
+			T := ex.W.lookupType(scope, tname)
+			if T == nil {
+				ctx.fail("unknown identifier %s (type)", tname)
+			}
+			bv := f.Bound(name, ex.tm.SortOf(T))
+			saved, had := ctx.vars[name]
+			ctx.vars[name] = CV{bv, T}
+			body := ctx.eval(x.Args[2]).t
+			if had {
+				ctx.vars[name] = saved
+			} else {
+				delete(ctx.vars, name)
+			}
+			if id.Name == "forallt" {
+				return CV{f.Forall([]*Term{bv}, body), nil}
+			}
+			return CV{f.Exists([]*Term{bv}, body), nil}
 		case "min", "max":
 			a, b := ctx.eval(x.Args[0]), ctx.eval(x.Args[1])
 			if id.Name == "min" {
